@@ -24,9 +24,12 @@ def run(ctx):
         core.report(ctx, {"check": "Mon_Persist", "invariant": x["invariant"], "op": op, "at": ev.get("ev", "?") + ":" + str(ev.get("name", "")),
                           "field": (bad[0].split(":")[-1] if bad else "")},
                     {"events": evs, "failing_event": x["event"]})
+    # the restart itself: the real Start() on the stored listeners (Registry.tla Restart), every restored field compared
+    from checks import C16
+    rb, rsumm = C16.run_restart_family(ctx, hb)
     core.write_evidence(ctx, "model_checking",
         rule="behaviours = all Persist operation sequences of length 3 plus seeded walks of 9 operations (register, refresh, connect new, reparent, disconnect, death, listener add/remove over 3 agents with boundary metadata strings and a top-bit id); a hook after every write statement in pkg/db copies the database file (= the state a kill at that point leaves) and reopens it with the real AgentAll/ParentOf/LinksOf/ListenerAll; every copy is one kill point; non-trivial = kill points examined",
         samples=summ["samples"], evaluations=summ["counters"].get("kill-points", 0) + summ["events"], distinct_nontrivial=summ["counters"].get("kill-points", 0),
-        exhaustive=False, extra={"counters": summ["counters"], "behaviours": summ["behaviours"]},
+        exhaustive=False, extra={"counters": summ["counters"], "behaviours": summ["behaviours"], "restart_family": {"behaviours": len(rb), "counters": rsumm["counters"]}},
         assumptions=["a process kill between two statements leaves exactly the file contents visible at that point (SQLite autocommit; page cache survives SIGKILL); kills inside one statement rely on SQLite's atomic commit",
-                     "the restore loop of Start() is represented by the reader calls it makes, not executed itself"])
+                     "at kill points the restore loop of Start() is represented by the reader calls it makes; the Restart family of Registry.tla runs the real Start() on a cleanly stopped teamserver"])
